@@ -254,7 +254,11 @@ class Sql:
         rows = m(it, T, ps, params)
         st.effect('SQL', stmt=ps, params=params, in_txn=st.world.get('txn.active', False),
                   nrows=(len(rows) if isinstance(rows, list) else None))
-        return Obj('Cursor', {'rows': rows})
+        cur = Obj('Cursor', {'rows': rows})
+        rc = st.ghost.pop('last_rowcount', None)
+        if rc is not None:
+            cur.fields['rowcount'] = rc
+        return cur
 
     # ---- transactions
     def x_begin(self, it, T, ps, params):
@@ -713,7 +717,7 @@ class Sql:
             return self.update_settings(it, T, ps, params)
         wh = ps['where']
         if not (wh and wh[0] == 'cmp' and wh[1] == '=' and wh[2] == ('col', 'rowid')):
-            raise Unsupported('UPDATE shape: %s' % ps['text'])
+            return self.update_where(it, T, ps, params)
         rv = self.term(it, T, wh[3], params, None)
         r = DbVal.iv(rv)
         if not st.branch(z3.And(DbVal.is_IntV(rv), z3.Select(w['T.live'], r))):
@@ -732,6 +736,45 @@ class Sql:
         self.sum_fact(it, size0, w['T.live'], w['T.size'], w['T.live'], new_size - old_size)
         self.fire(T, 'UPDATE', new_size=new_size, old_size=old_size)
         st.effect('UPDATE', rowid=r, cols=[c for c, _ in news], old_filename=old_fn, new=dict(news))
+        return []
+
+    def update_where(self, it, T, ps, params):
+        """UPDATE Cache SET c = e, ... WHERE <condition>: every live row satisfying the condition gets the
+        new cells, all others keep theirs; the cursor's rowcount is the number of such rows (0 iff none).
+        Only columns that neither carry the unique index nor feed a trigger (size) nor name a file."""
+        st = it.st
+        w = T.w
+        if not ps['where']:
+            raise Unsupported('UPDATE without WHERE: %s' % ps['text'])
+        cols = [c for c, _ in ps['sets']]
+        if any(c in ('key', 'raw', 'size', 'filename', 'mode', 'value') for c in cols):
+            raise Unsupported('set-wise UPDATE of %r: %s' % (cols, ps['text']))
+        q = z3.Int('q_upd')
+        frozen = dict(w)
+
+        class _T0:
+            pass
+        T0 = _T0()
+        T0.w = frozen
+        hit = lambda r: self.where_at(it, T0, ps, params, r)
+        for c, e in ps['sets']:
+            sort, nullable = COLS[c]
+            new = st.fresh('T_%s_upd' % c, sort)
+            # the value may depend on the row (e.g. access_count + 1): evaluated against the old row
+            tmpT = Table(st)
+            tmpT.w = dict(frozen)
+            self.store_cell(it, tmpT, c, q, self.term(it, T0, e, params, q))
+            st.assume(z3.ForAll([q], z3.Select(new, q) == z3.If(hit(q), z3.Select(tmpT.w['T.' + c], q), z3.Select(frozen['T.' + c], q))))
+            w['T.' + c] = new
+            if nullable:
+                newn = st.fresh('T_%s_null_upd' % c, A_IB)
+                st.assume(z3.ForAll([q], z3.Select(newn, q) == z3.If(hit(q), z3.Select(tmpT.w['T.' + c + '?'], q),
+                                                                       z3.Select(frozen['T.' + c + '?'], q))))
+                w['T.' + c + '?'] = newn
+        n = st.fresh('rowcount', _I)
+        st.assume(z3.And(n >= 0, n <= frozen['T.card'], (n == 0) == z3.ForAll([q], z3.Not(hit(q)))))
+        st.ghost['last_rowcount'] = SV('int', n)
+        st.effect('UPDATE_WHERE', cols=cols, stmt=ps['text'], rowcount=n)
         return []
 
     def update_settings(self, it, T, ps, params):
